@@ -41,7 +41,7 @@ def lex_bounded(pid, cfg, results, tier, seed):
     if not ok:
         out["undecided"].append("replay binary unavailable: " + log[-400:])
         return out
-    out["cmds"].append("RUSTFLAGS='--cfg mamba_verif' cargo build --offline (vxreplay against the working tree); vxreplay relex; vxreplay spans <corpus>")
+    out["cmds"].append("cargo build --offline of /verif/replay (vxreplay, depends on /repo with feature mamba_verif); vxreplay relex; vxreplay spans <corpus>")
     # 1. canonical spelling re-lexes to the same token, width == spelling length (all payload-free kinds + samples)
     rc, txt = replay.call(["relex"])
     summary = [l for l in (txt or "").splitlines() if l.startswith("RELEX|")]
